@@ -67,7 +67,7 @@ def ensure_mir(force=False):
         if not force and os.path.exists(stamp) and open(stamp).read().strip() == want:
             return dict(regenerated=False, source_hash=h, wall_s=round(time.time() - t0, 1))
         env = dict(os.environ, CARGO_NET_OFFLINE='true', LD_LIBRARY_PATH=nightly_sysroot() + '/lib', RUSTC_WORKSPACE_WRAPPER=binp,
-                   MIRDUMP_OUT=MIR_PREFIX, RUSTFLAGS='-C overflow-checks=on -C debug-assertions=off', CARGO_TERM_COLOR='never')
+                   MIRDUMP_OUT=MIR_PREFIX, RUSTFLAGS='-C overflow-checks=on -C debug-assertions=off -Zalways-encode-mir', CARGO_TERM_COLOR='never')
         env.pop('RUSTUP_TOOLCHAIN', None)
         # A crate's dump is rewritten whenever cargo re-checks it (it and all its dependants when a source changes);
         # dumps of untouched crates stay valid. If the dumper itself changed or a dump is missing, force all of them.
@@ -220,3 +220,25 @@ class Report:
             json.dump(ev, f, indent=1, default=str)
         print(f'{self.prop} [{self.tier}] obligations={n_ob} discharged={n_dis} violations={len(real)} known={len(self.known_hits)} inconclusive={len(self.inconclusive) + len(unrepro)} paths={self.paths} queries={self.queries} solver={self.solver_s:.1f}s wall={wall:.1f}s -> exit {status}')
         return status
+
+
+# ------------------------------------------------------------------------------------------------ parallel sweeps
+def parallel_map(fn, items, workers=None):
+    """run fn(item) in forked worker processes (results must be picklable: no z3 objects); preserves order"""
+    import multiprocessing as mp
+    workers = workers or min(14, max(1, (os.cpu_count() or 4) - 2))
+    if len(items) <= 1 or workers <= 1:
+        return [fn(x) for x in items]
+    ctx = mp.get_context('fork')
+    with ctx.Pool(workers, maxtasksperchild=8) as pool:
+        return pool.map(fn, items, chunksize=1)
+
+
+def stats_dict(stats):
+    return dict(paths=stats.paths, queries=stats.queries, solver_s=stats.solver_s, steps=stats.steps, functions=dict(stats.functions), models=dict(stats.models))
+
+
+def absorb_stats_dict(rep, d):
+    rep.paths += d['paths']; rep.queries += d['queries']; rep.solver_s += d['solver_s']; rep.steps += d['steps']
+    for k, v in d['functions'].items(): rep.functions[k] = rep.functions.get(k, 0) + v
+    for k, v in d['models'].items(): rep.models[k] = rep.models.get(k, 0) + v
